@@ -18,6 +18,7 @@ evaluated on the implementation with references that use neither the Lean model 
 """
 from __future__ import annotations
 
+import json
 import math
 import warnings
 from fractions import Fraction
@@ -51,6 +52,10 @@ LEAN = dict(
     assumptions=[
         "visit ages of one individual are pairwise distinct (enforced by the data layer, C14); with tied ages the "
         "stable sort makes `last`/`last-known` depend on input order (proved as counterexample, compared with the model)",
+        "requests in other accepted forms (tuple, integers, scalar, data frame, MultiIndex), individual parameters / models saved "
+        "and loaded back: compared bitwise with the list-request result of the original objects (same float64 operations)",
+        "modelled as repaired: F90 (scalar / empty request to the constant model), F91 (LME estimate from re-loaded individual "
+        "parameters), F92 (with_random_slope_age lost by save + load), F94 (documented spelling last_known) — open findings with fixes/",
         "LME envelopes: normalised ages carry <= 2 float32 roundings through the public API (ages_mean is a float32 "
         "value after lme_fit), float64 otherwise; cases with cond(Z'Z+Psi^-1) too large for a first-order envelope are "
         "counted as ill-conditioned and not compared",
@@ -228,22 +233,52 @@ def run_const_api(env, chk, case, units):
     # names in different column orders must each follow their own table
     reuse = bool(case.get("reuse"))
     shared_model = env["model_factory"]("constant") if reuse else None
+    # how the request reaches the code (absent in older cases = Data object, keyword argument, python lists, objects used directly)
+    entry = case.get("entry") or {}
+    qforms = entry.get("query") or {}
     for k_pt, pt in enumerate(case.get("pts", PTS)):
         focus = dict(case, pts=[pt])
         cols = list(feats)
         if reuse and nf >= 2 and k_pt % 2 == 1:
             cols = cols[1:] + cols[:1]          # same features, rotated column order
             focus["column_order"] = cols
+        f90 = {}
         try:
             with core.quiet():
                 dfp = df[["ID", "TIME"] + cols]
                 data = env["Data"].from_dataframe(dfp) if drop else env["Data"].from_dataframe(dfp, drop_full_nan=False)
+                if entry.get("data") == "Dataset":
+                    data = env["Dataset"](data)
+                elif entry.get("data") == "DataFrame" and drop:
+                    data = dfp.copy()            # (a visit table is read with the default drop_full_nan=True)
                 model = shared_model if reuse else env["model_factory"]("constant")
-                ip = model.personalize(data, "constant_prediction", prediction_type=pt)
+                how = entry.get("settings", "kwarg")
+                if how == "object":
+                    ip = model.personalize(data, algorithm_settings=env["AlgorithmSettings"]("constant_prediction", prediction_type=pt))
+                elif how == "default" and pt == "last":
+                    ip = model.personalize(data, "constant_prediction")       # documented default: the last visit
+                elif how == "documented-spelling" and pt == "last-known":
+                    # the docstrings of the algorithm and of the model call this type ``last_known``
+                    try:
+                        ip = model.personalize(data, "constant_prediction", prediction_type="last_known")
+                    except ValueError as e:
+                        if "'last_known' is not a valid PredictionType" in str(e):      # F94's region, narrowly
+                            chk.impl_failure(focus, f"prediction_type='last_known' (the documented spelling) refused: {e}", finding="F94")
+                            continue
+                        raise
+                else:
+                    ip = model.personalize(data, "constant_prediction", prediction_type=pt)
                 ids = list(ip._indices)
                 query = {i: case["query"][i] for i in ids if i in case["query"]}
-                est = model.estimate(query, ip)
                 model_feats = list(model.features)
+                ip_used, model_used = ip, model
+                if entry.get("ip_route") == "json":
+                    ip_used = roundtrip_ip(env, ip)
+                if entry.get("model_route") == "save-load":
+                    model_used = roundtrip_model(env, model)
+                    if list(model_used.features) != model_feats:
+                        chk.impl_failure(focus, f"features of the saved and re-loaded model {list(model_used.features)} != {model_feats}")
+                est, f90 = const_estimate(env, chk, focus, model_used, ip_used, query, qforms, len(cols))
         except Exception as e:  # noqa
             chk.impl_failure(focus, f"valid cohort aborted in personalize/estimate ({pt}): {err_class(env, e)}: {e}")
             continue
@@ -264,8 +299,12 @@ def run_const_api(env, chk, case, units):
                 chk.impl_failure(fcase, "individual with observations missing from the individual parameters")
                 continue
             impl_ip = [opt(ip[ind][f]) for f in feats]
+            if ind in f90:
+                continue      # F90's region (scalar / empty request refused or mis-shaped): reported there, the model is the repaired code
             impl_traj = [[opt(x) for x in row] for row in est[ind]] if ind in query else None
-            nq = len(query.get(ind, []))
+            qf = qforms.get(ind)
+            asked = [] if ind not in query else ([] if qf == "empty" else (query[ind][:1] if qf in ("scalar", "np-scalar") else query[ind]))
+            nq = len(asked)
             for f in const_predicate(pt, nf, seen, impl_ip, impl_traj, nq, EPS32):
                 chk.impl_failure(fcase, f)
             ages = [a for a, _ in h]
@@ -274,10 +313,124 @@ def run_const_api(env, chk, case, units):
                     "all_missing_feature": any(all(v[j] is None for _, v in seen) for j in range(nf)),
                     "input_sorted": ages == sorted(ages), "dropped_visits": len(h) - len(seen) if drop else 0}
             line = (f"const pt={pt} nf={nf} drop={1 if drop else 0} v={fmt_visits(h)} "
-                    f"t={fmt_list([fmt_rat(Fraction(t)) for t in query.get(ind, [])])}")
+                    f"t={fmt_list([fmt_rat(Fraction(t)) for t in asked])}")
+            if entry:
+                tags = dict(tags, data_as=entry.get("data", "Data"), settings_as=entry.get("settings", "kwarg"),
+                            ip_route=entry.get("ip_route", "direct"), model_route=entry.get("model_route", "direct"),
+                            n_features=nf, value_scale_log2=case.get("scale_log2", 0), time_axis=case.get("axis", "age"))
             units.append(dict(line=line, case=fcase, impl=(impl_ip, impl_traj), pt=pt, dtype="f32", cmp=cmp_const,
-                              key=("const-api", pt, nf, drop, tuple((a, tuple(v)) for a, v in h)), nontrivial=nontriv,
-                              tags=tags))
+                              key=("const-api", pt, nf, drop, tuple((a, tuple(v)) for a, v in h), json.dumps(entry, sort_keys=True)),
+                              nontrivial=nontriv, tags=tags))
+
+
+def roundtrip_ip(env, ip):
+    """individual parameters written to a JSON file and read back (the documented way to keep a personalisation)"""
+    import os
+    import shutil
+    import tempfile
+    from leaspy.io.outputs import IndividualParameters
+    tmp = tempfile.mkdtemp(prefix="c20_ip_")
+    try:
+        path = os.path.join(tmp, "ip.json")
+        ip.save(path)
+        return IndividualParameters.load(path)
+    finally:
+        shutil.rmtree(tmp, ignore_errors=True)
+
+
+def roundtrip_model(env, model):
+    import os
+    import shutil
+    import tempfile
+    from leaspy.models import BaseModel
+    tmp = tempfile.mkdtemp(prefix="c20_model_")
+    try:
+        path = os.path.join(tmp, "model.json")
+        model.save(path)
+        return BaseModel.load(path)
+    finally:
+        shutil.rmtree(tmp, ignore_errors=True)
+
+
+def dress_query(env, ts, form):
+    np = env["np"]
+    if form in (None, "list"):
+        return list(ts)
+    if form == "tuple":
+        return tuple(ts)
+    if form == "np64":
+        return np.array(ts, dtype=np.float64)
+    if form == "np32":
+        return np.array(ts, dtype=np.float32)
+    if form == "int-list":
+        return [int(t) for t in ts] if all(float(t).is_integer() for t in ts) else list(ts)
+    if form == "scalar":
+        return ts[0]
+    if form == "np-scalar":
+        return np.float64(ts[0])
+    if form == "empty":
+        return []
+    raise ValueError(form)
+
+
+def n_requested(ts, form):
+    return 0 if form == "empty" else (1 if form in ("scalar", "np-scalar") else len(ts))
+
+
+def const_estimate(env, chk, focus, model, ip, query, qforms, nf):
+    """estimate() of the constant model for every requested individual, each request in its own accepted form ("a unique
+    time-point or a list of time-points"; tuples and arrays as estimate itself passes them on), then the same request as a data
+    frame (to_dataframe=True) and through a MultiIndex. Returns (id -> rows as nested lists, ids in F90's region)."""
+    np, pd = env["np"], env["pd"]
+    est, f90 = {}, {}
+    plain = {}
+    for i, ts in query.items():
+        form = qforms.get(i)
+        nq = n_requested(ts, form)
+        fcase = dict(focus, individual=i, query_form=form)
+        if form in ("scalar", "np-scalar", "empty"):
+            # F90's region: a request that is not a non-empty sequence, on its own call
+            try:
+                a = np.asarray(model.estimate({i: dress_query(env, ts, form)}, ip)[i])
+            except TypeError as e:
+                if "has no len()" in str(e):
+                    chk.impl_failure(fcase, f"estimate at a time-point given as a scalar raised TypeError: {e}", finding="F90")
+                    f90[i] = 1
+                    continue
+                raise
+            if form == "empty" and a.shape == (0,):
+                chk.impl_failure(fcase, f"estimate for an empty list of ages has shape {a.shape} instead of (0, {nf})", finding="F90")
+                f90[i] = 1
+                continue
+        else:
+            a = np.asarray(model.estimate({i: dress_query(env, ts, form)}, ip)[i])
+            plain[i] = list(ts)
+        if a.shape != (nq, nf) or str(a.dtype) != "float32":
+            chk.impl_failure(fcase, f"estimate returned an array of shape {a.shape} / {a.dtype} for {nq} requested ages and {nf} features")
+            est[i] = []
+            continue
+        est[i] = a.tolist()
+        if form:
+            chk.tag("query_form", form)
+    # the same (non-degenerate) requests in one call, as a data frame and through an index: exactly the requested rows, in order,
+    # each carrying the individual's constant values
+    if plain and qforms:
+        want_keys = [(i, float(t)) for i, ts in plain.items() for t in ts]
+        ix_list = list(want_keys)
+        ix_list.reverse()
+        ix = pd.MultiIndex.from_tuples(ix_list, names=["ID", "TIME"])
+        for what, out, keys in (("to_dataframe=True", model.estimate(plain, ip, to_dataframe=True), want_keys),
+                                ("MultiIndex", model.estimate(ix, ip), ix_list)):
+            got = [(a, float(b)) for a, b in out.index.tolist()]
+            if got != keys:
+                chk.impl_failure(dict(focus, entry_point=what), f"estimate ({what}) returned rows {got[:5]}… for the requested {keys[:5]}…")
+                continue
+            for (i, _t), row in zip(got, out.values.tolist()):
+                ref = est[i][0] if est.get(i) else None
+                if ref is not None and not all((x == y) or (x != x and y != y) for x, y in zip(row, ref)):
+                    chk.impl_failure(dict(focus, entry_point=what, individual=i), f"estimate ({what}) row {row} differs from the dict estimate {ref}")
+                    break
+    return est, f90
 
 
 def run_const_algo(env, chk, case, units):
@@ -285,7 +438,8 @@ def run_const_algo(env, chk, case, units):
     nf = case["nf"]
     times = case["times"]
     values = case["values"]  # [[v|None]*nf]*n
-    arr = np.array([[float("nan") if v is None else v for v in row] for row in values], dtype=float).reshape(len(times), nf)
+    vdt = np.float32 if case.get("values_as") == "f32" else float      # the public API hands float32 values over
+    arr = np.array([[float("nan") if v is None else v for v in row] for row in values], dtype=vdt).reshape(len(times), nf)
     feats = [f"F{j}" for j in range(nf)]
     rows = list(zip(times, values))
     for pt in case.get("pts", PTS):
@@ -293,7 +447,16 @@ def run_const_algo(env, chk, case, units):
         try:
             with core.quiet():
                 algo = env["CPA"](env["AlgorithmSettings"]("constant_prediction", prediction_type=pt))
-                t_in = np.array(times, dtype=float) if case.get("times_as") != "list" else list(times)
+                ta = case.get("times_as")
+                if ta == "list":
+                    t_in = list(times)
+                elif ta == "f32":
+                    t_in = np.array(times, dtype=np.float32)
+                elif ta == "torch":
+                    import torch
+                    t_in = torch.tensor(times, dtype=torch.float32)     # what Dataset.get_times_patient may hand over
+                else:
+                    t_in = np.array(times, dtype=float)
                 d = algo._get_individual_last_values(t_in, arr.copy(), features=feats)
             impl = ([opt(d[f]) for f in feats], None)
             if list(d.keys()) != feats:
@@ -303,7 +466,7 @@ def run_const_algo(env, chk, case, units):
             if times:
                 chk.impl_failure(fcase, f"non-empty history aborted ({pt}): {impl}: {e}")
         if not isinstance(impl, str):
-            for f in const_predicate(pt, nf, rows, impl[0], None, 0, EPS64):
+            for f in const_predicate(pt, nf, rows, impl[0], None, 0, EPS32 if vdt is np.float32 else EPS64):
                 chk.impl_failure(fcase, f)
         tied = len(set(times)) < len(times)
         nontriv = len(times) >= 2 and (times != sorted(times) or any(v is None for row in values for v in row))
@@ -311,8 +474,11 @@ def run_const_algo(env, chk, case, units):
                 "input_sorted": times == sorted(times), "empty": not times,
                 "all_missing_feature": bool(times) and any(all(r[j] is None for r in values) for j in range(nf))}
         line = f"const pt={pt} nf={nf} drop=0 v={fmt_visits(rows)} t=_"
-        units.append(dict(line=line, case=fcase, impl=impl, pt=pt, dtype="f64", cmp=cmp_const,
-                          key=("const-algo", pt, nf, tuple(times), tuple(map(tuple, values))), nontrivial=nontriv, tags=tags))
+        if case.get("values_as") or case.get("axis"):
+            tags = dict(tags, values_dtype=case.get("values_as", "f64"), times_as=case.get("times_as"), time_axis=case.get("axis", "age"))
+        units.append(dict(line=line, case=fcase, impl=impl, pt=pt, dtype="f32" if vdt is np.float32 else "f64", cmp=cmp_const,
+                          key=("const-algo", pt, nf, tuple(times), tuple(map(tuple, values)), case.get("values_as"), case.get("times_as")),
+                          nontrivial=nontriv, tags=tags))
 
 
 # ---------------------------------------------------------------------------- LME: numpy reference + envelope
@@ -503,13 +669,17 @@ def by_individual(rows):
     return h
 
 
-def personalize_and_estimate(env, model, data, query):
-    """public API; returns (ip: id -> {name: float}, est: id -> [float] | error string); personalize errors escape"""
+def personalize_and_estimate(env, model, data, query, chk=None, case=None, entry=None, slope=None):
+    """public API; returns (ip: id -> {name: float}, est: id -> [float] | error string); personalize errors escape.
+    With `entry` (and chk / case): the same requests in the other accepted forms, through individual parameters that were saved
+    and loaded back, and with the model saved and loaded back — every route must give the very same numbers."""
+    np, pd = env["np"], env["pd"]
     with core.quiet():
         ip = model.personalize(data, "lme_personalize")
     ids = list(ip._indices)
     ipd = {i: {k: float(v) for k, v in ip[i].items()} for i in ids}
     estd = {}
+    arrs = {}
     for i in ids:
         if i not in query:
             continue
@@ -518,7 +688,6 @@ def personalize_and_estimate(env, model, data, query):
                 arr = model.estimate({i: query[i]}, ip)[i]
                 # the same request with the ages as a float64 array (what `np.linspace` / a DataFrame column give), twice:
                 # same answer, and the caller's array is left as it was
-                np = env["np"]
                 ages_arr = np.array(query[i], dtype=np.float64)
                 keep = ages_arr.copy()
                 a1 = model.estimate({i: ages_arr}, ip)[i]
@@ -533,9 +702,120 @@ def personalize_and_estimate(env, model, data, query):
                 estd[i] = f"err:other:shape{tuple(arr.shape)}/{arr.dtype}"
             else:
                 estd[i] = [float(x) for x in arr[:, 0]]
+                arrs[i] = arr
         except Exception as e:  # noqa
             estd[i] = err_class(env, e)
+    if entry and chk is not None:
+        other_routes(env, chk, case, model, data, ip, ipd, query, arrs, slope)
     return ipd, estd
+
+
+def other_routes(env, chk, case, model, data, ip, ipd, query, arrs, slope):
+    np, pd = env["np"], env["pd"]
+
+    def same(a, b):
+        a, b = np.asarray(a), np.asarray(b)
+        return a.shape == b.shape and np.array_equal(a, b, equal_nan=True)
+
+    # (1) forms of the request
+    for i, arr in arrs.items():
+        ts = query[i]
+        if not ts:
+            continue
+        fcase = dict(case, individual=i)
+        forms = [("tuple", tuple(ts)), ("scalar", ts[0]), ("numpy-scalar", np.float64(ts[0]))]
+        if all(float(t).is_integer() for t in ts):
+            forms.append(("integers", [int(t) for t in ts]))
+        for name, req in forms:
+            want = arr[:1] if "scalar" in name else arr
+            try:
+                with core.quiet():
+                    got = model.estimate({i: req}, ip)[i]
+            except Exception as e:  # noqa
+                chk.impl_failure(dict(fcase, query_form=name), f"estimate with the ages given as {name} raised {err_class(env, e)}: {e}")
+                continue
+            if not same(got, want):
+                chk.impl_failure(dict(fcase, query_form=name), f"estimate with the ages given as {name} returns {np.asarray(got).tolist()}, "
+                                                               f"as a list {np.asarray(want).tolist()}")
+            chk.tag("lme_query_form", name)
+    plain = {i: list(query[i]) for i in arrs if query[i]}
+    if plain:
+        keys = [(i, float(t)) for i, ts in plain.items() for t in ts]
+        rev = list(reversed(keys))
+        try:
+            with core.quiet():
+                fr = model.estimate(plain, ip, to_dataframe=True)
+                fx = model.estimate(pd.MultiIndex.from_tuples(rev, names=["ID", "TIME"]), ip)
+            for what, out, kk in (("to_dataframe=True", fr, keys), ("MultiIndex", fx, rev)):
+                got = [(a, float(b)) for a, b in out.index.tolist()]
+                vals = {}
+                for i in plain:
+                    vals[i] = {float(t): float(v) for t, v in zip(plain[i], arrs[i][:, 0])}
+                if got != kk:
+                    chk.impl_failure(dict(case, entry_point=what), f"estimate ({what}) returned rows {got[:5]}… for the requested {kk[:5]}…")
+                elif not all(float(v) == vals[i][t] or (v != v and vals[i][t] != vals[i][t]) for (i, t), v in zip(got, out.values[:, 0].tolist())):
+                    chk.impl_failure(dict(case, entry_point=what), f"estimate ({what}) values differ from the dict estimates")
+                chk.tag("lme_query_form", what)
+        except Exception as e:  # noqa
+            chk.impl_failure(dict(case, entry_point="frame/index"), f"estimate as a data frame / through an index raised {err_class(env, e)}: {e}")
+    # (2) individual parameters saved and loaded back (plain floats instead of numpy scalars)
+    try:
+        with core.quiet():
+            ip2 = roundtrip_ip(env, ip)
+    except Exception as e:  # noqa
+        chk.tag("lme_ip_route", f"json-unavailable:{type(e).__name__}")
+        ip2 = None
+    if ip2 is not None:
+        chk.tag("lme_ip_route", "json")
+        for i, arr in arrs.items():
+            fcase = dict(case, individual=i, ip_route="json")
+            if {k: float(v) for k, v in ip2[i].items()} != ipd[i]:
+                chk.tag("lme_ip_route", "json-values-changed")     # C16's matter
+                continue
+            try:
+                with core.quiet():
+                    got = model.estimate({i: query[i]}, ip2)[i]
+            except AttributeError as e:
+                # F91's region is narrow: the `.item()` of a plain float
+                fid = "F91" if "has no attribute 'item'" in str(e) else None
+                chk.impl_failure(fcase, f"estimate from individual parameters that were saved and loaded back raised AttributeError: {e}", finding=fid)
+                continue
+            except Exception as e:  # noqa
+                chk.impl_failure(fcase, f"estimate from individual parameters that were saved and loaded back raised {err_class(env, e)}: {e}")
+                continue
+            if not same(got, arr):
+                chk.impl_failure(fcase, f"estimate from re-loaded individual parameters {np.asarray(got).tolist()} != {arr.tolist()}")
+    # (3) the model saved and loaded back: same structure, same random effects, same lines
+    try:
+        with core.quiet():
+            m2 = roundtrip_model(env, model)
+    except Exception as e:  # noqa
+        chk.impl_failure(dict(case, model_route="save-load"), f"saving and loading the fitted LME model raised {err_class(env, e)}: {e}")
+        return
+    chk.tag("lme_model_route", "save-load")
+    mcase = dict(case, model_route="save-load")
+    flag = bool(getattr(m2, "with_random_slope_age", None))
+    if slope is not None and flag != bool(slope):
+        # F92's region is narrow: a random-intercept model that comes back with a random slope
+        chk.impl_failure(mcase, f"the model saved with with_random_slope_age={bool(slope)} is loaded with with_random_slope_age={flag}",
+                         finding="F92" if (not slope and flag) else None)
+        return
+    try:
+        with core.quiet():
+            ipb = m2.personalize(data, "lme_personalize")
+        ipbd = {i: {k: float(v) for k, v in ipb[i].items()} for i in ipb._indices}
+        if ipbd != ipd:
+            bad = next(i for i in ipd if ipbd.get(i) != ipd[i])
+            chk.impl_failure(dict(mcase, individual=bad), f"random effects from the re-loaded model {ipbd.get(bad)} != {ipd[bad]}")
+            return
+        for i, arr in arrs.items():
+            with core.quiet():
+                got = m2.estimate({i: query[i]}, ipb)[i]
+            if not same(got, arr):
+                chk.impl_failure(dict(mcase, individual=i), f"estimate of the re-loaded model {np.asarray(got).tolist()} != {arr.tolist()}")
+                break
+    except Exception as e:  # noqa
+        chk.impl_failure(mcase, f"personalize / estimate with the re-loaded model raised {err_class(env, e)}: {e}")
 
 
 def run_lme_synth(env, chk, case, units):
@@ -550,11 +830,20 @@ def run_lme_synth(env, chk, case, units):
     try:
         with core.quiet():
             data = make_data(env, rows, drop=case.get("drop_full_nan", True))
-            model = env["model_factory"]("lme", with_random_slope_age=slope)
-            model.initialize(env["Dataset"](data))
-            model.load_parameters({"ages_mean": mean, "ages_std": std, "fe_params": np.array(fe, dtype=float),
-                                   "cov_re_unscaled_inv": cinv_arr})
-        ipd, estd = personalize_and_estimate(env, model, data, case["query"])
+            if case.get("model_as") == "settings":
+                # the documented file format, as a dictionary (lists and floats, the random-effects structure as a keyword)
+                from leaspy.models import BaseModel
+                model = BaseModel.load({"leaspy_version": "2.0.0-dev", "name": "lme", "features": ["Y"], "dimension": 1,
+                                        "with_random_slope_age": bool(slope),
+                                        "parameters": {"ages_mean": mean, "ages_std": std, "fe_params": [float(x) for x in fe],
+                                                       "cov_re_unscaled_inv": cinv_arr.tolist()}})
+            else:
+                model = env["model_factory"]("lme", with_random_slope_age=slope)
+                model.initialize(env["Dataset"](data))
+                model.load_parameters({"ages_mean": mean, "ages_std": std, "fe_params": np.array(fe, dtype=float),
+                                       "cov_re_unscaled_inv": cinv_arr})
+        ipd, estd = personalize_and_estimate(env, model, data, case["query"], chk=chk, case=case,
+                                             entry=case.get("routes") and std != 0, slope=slope)
         err = None
     except Exception as e:  # noqa
         err = f"{err_class(env, e)}"
@@ -670,7 +959,7 @@ class FitRecorder:
         return False
 
 
-def independent_fit(env, rows, slope, force_indep, mean, std):
+def independent_fit(env, rows, slope, force_indep, mean, std, fit_kwargs=None):
     """The documented model fitted by statsmodels directly from the raw table, by harness code that shares nothing
     with lme_fit: y ~ 1 + a, a = (age - ages_mean) / ages_std, groups = individuals, random intercept (+ random slope
     on a).  `mean`/`std` are the stored normalisation constants (checked separately against the population mean / std
@@ -686,9 +975,11 @@ def independent_fit(env, rows, slope, force_indep, mean, std):
     a = (t - np.float32(mean)) / np.float32(std)
     X = sm.add_constant(a, prepend=True, has_constant="add")
     kws = dict(method=["lbfgs", "bfgs", "powell"])
+    # the documented pass-through options of MixedLM.fit (estimation criterion, optimisers)
+    kws.update({k: v for k, v in (fit_kwargs or {}).items() if k != "with_random_slope_age"})
     if slope and force_indep:
         kws["free"] = mlm.MixedLMParams.from_components(fe_params=np.ones(2), cov_re=np.eye(2))
-        kws["method"] = ["lbfgs", "bfgs"]
+        kws["method"] = [m for m in kws["method"] if m not in ("powell", "nm")] or ["bfgs"]
     with core.quiet():
         res = mlm.MixedLM(y, X, g, X if slope else None, missing="raise").fit(**kws)
     return dict(fe=np.asarray(res.fe_params, dtype=float), cov_re=np.asarray(res.cov_re, dtype=float),
@@ -705,12 +996,22 @@ def run_lme_fit(env, chk, case, units):
     fit_tags = {"kind": "lme-fit", "slope": slope}
     try:
         with core.quiet(), FitRecorder(env) as rec:
-            data = make_data(env, train)
+            data = make_data(env, train, drop=case.get("train_drop_full_nan", True))
             model = env["model_factory"]("lme", with_random_slope_age=slope)
+            kws = dict(case.get("fit_kwargs") or {})
             if force:
-                model.fit(data, "lme_fit", force_independent_random_effects=True)
+                kws["force_independent_random_effects"] = True
+                if "method" in kws:
+                    kws["method"] = [m for m in kws["method"] if m not in ("powell", "nm")] or ["bfgs"]
+            fit_entry = case.get("fit_entry", "kwargs")
+            if fit_entry == "settings-object":
+                model.fit(data, algorithm_settings=env["AlgorithmSettings"]("lme_fit", **kws))
+            elif fit_entry == "dataframe" and case.get("train_drop_full_nan", True):
+                pd_ = env["pd"]
+                model.fit(pd_.DataFrame([[r[0], r[1], float("nan") if r[2] is None else r[2]] for r in train], columns=["ID", "TIME", "Y"]),
+                          "lme_fit", **kws)
             else:
-                model.fit(data, "lme_fit")
+                model.fit(data, "lme_fit", **kws)
         res = rec.results[-1] if rec.results else None
     except Exception as e:  # noqa
         cls = err_class(env, e)
@@ -718,6 +1019,9 @@ def run_lme_fit(env, chk, case, units):
         chk.case(key, nontrivial=False, tags=fit_tags)
         return False
     chk.tag("lme_fit_outcome", "ok")
+    if case.get("routes"):
+        chk.tag("lme_fit_variant", f"{case.get('axis')}/train_drop={case.get('train_drop_full_nan')}/{case.get('fit_entry')}/"
+                                   f"{json.dumps(case.get('fit_kwargs'), sort_keys=True)}")
     P = model.parameters
     try:
         mean, std = float(P["ages_mean"]), float(P["ages_std"])
@@ -753,7 +1057,7 @@ def run_lme_fit(env, chk, case, units):
     indep = None
     if case.get("indep") and well:
         try:
-            indep = independent_fit(env, train, slope, force, mean, std)
+            indep = independent_fit(env, train, slope, force, mean, std, case.get("fit_kwargs"))
             if not indep["converged"] or not (res is not None and res.converged):
                 chk.tag("indep_fit", "not-converged-skipped")
                 indep = None
@@ -775,7 +1079,7 @@ def run_lme_fit(env, chk, case, units):
     try:
         with core.quiet():
             pdata = make_data(env, all_rows, drop=case.get("drop_full_nan", True))
-        ipd, estd = personalize_and_estimate(env, model, pdata, query)
+        ipd, estd = personalize_and_estimate(env, model, pdata, query, chk=chk, case=case, entry=case.get("routes"), slope=slope)
         api_err = None
     except Exception as e:  # noqa
         api_err = err_class(env, e)
@@ -828,25 +1132,42 @@ def gen_value(rng):
     return rng.randrange(-32, 97) / 16.0
 
 
-def gen_history(rng, nf, n, p_miss, tied=False):
-    """n visits with distinct (or deliberately tied) dyadic ages, in random order"""
+AXES = {"age": 50.0, "since-baseline": -20.0, "months": 600.0}   # first possible visit time; the span is 50 units
+
+
+def gen_history(rng, nf, n, p_miss, tied=False, axis="age", scale_log2=0):
+    """n visits with distinct (or deliberately tied) dyadic ages, in random order.  `axis`: ages around 50-100 (default), a time
+    axis in years since baseline (negative times and 0 included) or in months; `scale_log2`: values multiplied by a power of
+    two (the unit of a feature is arbitrary; everything stays exactly representable in float32)."""
+    t0 = AXES[axis]
     if tied and n >= 2:
-        pool = [50 + rng.randrange(0, 12) / 8.0 for _ in range(max(1, n // 2))]
+        pool = [t0 + rng.randrange(0, 12) / 8.0 for _ in range(max(1, n // 2))]
         ages = [rng.choice(pool) for _ in range(n)]
     else:
-        ages = [50 + k / 8.0 for k in rng.sample(range(0, 400), n)]
-    rows = [(a, [None if rng.random() < p_miss else gen_value(rng) for _ in range(nf)]) for a in ages]
+        ages = [t0 + k / 8.0 for k in rng.sample(range(0, 400), n)]
+    sc = 2.0 ** scale_log2
+    rows = [(a, [None if rng.random() < p_miss else sc * gen_value(rng) for _ in range(nf)]) for a in ages]
     return rows
 
 
-def gen_const_api(rng, idx):
+QUERY_FORMS = ["list", "list", "tuple", "np64", "np32", "int-list", "scalar", "np-scalar", "empty"]
+
+
+def gen_const_api(rng, idx, wide=False):
     nf = rng.choice([1, 1, 2, 3, 4])
     n_ind = rng.randrange(1, 4)
     drop = rng.random() < 0.6
+    axis, scale_log2 = "age", 0
+    if wide:
+        # more than 10 features, cohorts of very different visit counts (padding), other time axes and units
+        nf = rng.choice([1, 2, 3, 5, 12])
+        n_ind = rng.randrange(1, 5)
+        axis = rng.choice(list(AXES))
+        scale_log2 = rng.choice([-20, -10, 0, 0, 10, 20])
     rows, query = [], {}
     for i in range(n_ind):
-        n = rng.choice([1, 1, 2, 2, 3, 4, 5, 6, 8])
-        h = gen_history(rng, nf, n, rng.choice([0.0, 0.2, 0.5, 0.8]))
+        n = rng.choice([1, 1, 2, 2, 3, 4, 5, 6, 8] + ([17, 33] if wide else []))
+        h = gen_history(rng, nf, n, rng.choice([0.0, 0.2, 0.5, 0.8]), axis=axis, scale_log2=scale_log2)
         mode = rng.random()
         if mode < 0.25 and nf >= 2:          # one feature entirely missing
             j = rng.randrange(nf)
@@ -862,22 +1183,35 @@ def gen_const_api(rng, idx):
     if not any(v is not None for r in rows for v in r[2]):
         rows[0][2][0] = 1.5
     rng.shuffle(rows)
-    return {"kind": "const-api", "nf": nf, "drop_full_nan": drop, "rows": rows, "query": query, "reuse": rng.random() < 0.5}
+    case = {"kind": "const-api", "nf": nf, "drop_full_nan": drop, "rows": rows, "query": query, "reuse": rng.random() < 0.5}
+    if wide:
+        case.update(axis=axis, scale_log2=scale_log2)
+        case["entry"] = {"data": rng.choice(["Data", "Dataset", "DataFrame"]), "settings": rng.choice(["kwarg", "object", "default", "documented-spelling"]),
+                         "ip_route": rng.choice(["direct", "json"]), "model_route": rng.choice(["direct", "direct", "save-load"]),
+                         "query": {i: rng.choice(QUERY_FORMS) for i in query}}
+    return case
 
 
-def gen_const_algo(rng, idx):
+def gen_const_algo(rng, idx, wide=False):
     nf = rng.choice([1, 2, 2, 3])
     mode = rng.random()
+    axis, sc = "age", 0
+    if wide:
+        nf = rng.choice([1, 2, 3, 11])
+        axis, sc = rng.choice(list(AXES)), rng.choice([-20, 0, 0, 20])
     if mode < 0.04:
         h = []
     else:
-        n = rng.choice([1, 2, 2, 3, 3, 4, 5, 6, 9])
-        h = gen_history(rng, nf, n, rng.choice([0.0, 0.3, 0.6, 0.9]), tied=mode > 0.75)
+        n = rng.choice([1, 2, 2, 3, 3, 4, 5, 6, 9] + ([20, 40] if wide else []))
+        h = gen_history(rng, nf, n, rng.choice([0.0, 0.3, 0.6, 0.9]), tied=mode > 0.75, axis=axis, scale_log2=sc)
         if rng.random() < 0.2 and nf >= 2:
             j = rng.randrange(nf)
             h = [(a, [None if k == j else v for k, v in enumerate(vals)]) for a, vals in h]
-    return {"kind": "const-algo", "nf": nf, "times": [a for a, _ in h], "values": [v for _, v in h],
+    case = {"kind": "const-algo", "nf": nf, "times": [a for a, _ in h], "values": [v for _, v in h],
             "times_as": rng.choice(["array", "list"])}
+    if wide:
+        case.update(axis=axis, values_as=rng.choice(["f32", "f64"]), times_as=rng.choice(["array", "list", "f32", "torch"]))
+    return case
 
 
 def gen_spd(rng):
@@ -888,9 +1222,10 @@ def gen_spd(rng):
     return [[a, b], [b, d]]
 
 
-def gen_lme_synth(rng, idx):
+def gen_lme_synth(rng, idx, wide=False):
     slope = rng.random() < 0.6
-    mean = 60 + rng.randrange(0, 160) / 8.0
+    t0 = AXES[rng.choice(list(AXES))] if wide else 50.0       # time axis: ages, years since baseline (negative, 0), months
+    mean = t0 + 10 + rng.randrange(0, 160) / 8.0
     std = rng.choice([0.5, 1.0, 2.0, 4.0, 8.0])
     fe = [rng.uniform(-2, 3), rng.uniform(-1, 1)]
     C = gen_spd(rng)
@@ -900,8 +1235,8 @@ def gen_lme_synth(rng, idx):
     cinv = C if slope else [[C[0][0]]]
     rows, query = [], {}
     for i in range(rng.randrange(1, 5)):
-        n = rng.choice([1, 1, 2, 3, 4, 5, 7])
-        ages = [50 + k / 8.0 for k in rng.sample(range(0, 320), n)]
+        n = rng.choice([1, 1, 2, 3, 4, 5, 7] + ([12, 20] if wide else []))
+        ages = [t0 + k / 8.0 for k in rng.sample(range(0, 320), n)]
         ident = f"p{idx}_{i}"
         b0, b1 = rng.gauss(0, 1), rng.gauss(0, 0.3)
         h = []
@@ -911,14 +1246,19 @@ def gen_lme_synth(rng, idx):
         if all(r[2] is None for r in h):
             h[0][2] = 1.25
         rows += h
-        query[ident] = [rng.randrange(320, 800) / 8.0 for _ in range(rng.choice([0, 1, 1, 2, 3, 3]) if i else 2)]
+        query[ident] = [t0 - 50 + rng.randrange(320, 800) / 8.0 for _ in range(rng.choice([0, 1, 1, 2, 3, 3]) if i else 2)]
+        if wide and rng.random() < 0.3:
+            query[ident] = [float(round(t)) for t in query[ident]]       # whole-number ages (may be handed over as integers)
     if (not slope) and 0.03 <= special < 0.06:      # zero denominator n + cinv = 0 for the first individual
         n0 = sum(1 for r in rows if r[0] == rows[0][0] and r[2] is not None)
         cinv = [[-float(n0)]]
     rng.shuffle(rows)
-    return {"kind": "lme-synth", "slope": slope, "drop_full_nan": False,
+    case = {"kind": "lme-synth", "slope": slope, "drop_full_nan": False,
             "params": {"ages_mean": mean, "ages_std": std, "fe_params": fe, "cov_re_unscaled_inv": cinv},
             "rows": rows, "query": query}
+    if wide:
+        case.update(routes=True, model_as=rng.choice(["factory", "settings"]))
+    return case
 
 
 def f32(x):
@@ -926,7 +1266,13 @@ def f32(x):
     return struct.unpack("<f", struct.pack("<f", x))[0]
 
 
-def gen_lme_fit(rng, idx, indep):
+# (`with_random_slope_age` is a documented, legacy key of the fit's settings file; the random-effects structure is the model's:
+#  whatever the key says, fit, personalisation and trajectories must agree on one structure)
+FIT_KWARGS = [{}, {}, {"reml": False}, {"method": ["bfgs"]}, {"method": ["lbfgs", "bfgs"], "reml": False},
+              {"with_random_slope_age": True}, {"with_random_slope_age": False}]
+
+
+def gen_lme_fit(rng, idx, indep, wide=False):
     slope = rng.random() < 0.5
     n_sub = rng.randrange(18, 36)
     sd0, sd1 = rng.uniform(0.5, 1.5), rng.uniform(0.2, 0.6)
@@ -936,6 +1282,15 @@ def gen_lme_fit(rng, idx, indep):
     noise = rng.uniform(0.1, 0.3)
     beta0, beta1 = rng.uniform(-1, 3), rng.uniform(-0.8, 0.8)
     centre, spread = rng.uniform(60, 80), rng.uniform(4, 8)
+    axis = "age"
+    if wide:
+        # the time axis is arbitrary too: years since baseline (first visits at / before 0) or months
+        axis = rng.choice(list(AXES))
+        if axis == "since-baseline":
+            centre, spread = rng.uniform(1, 4), rng.uniform(1, 2.5)
+        elif axis == "months":
+            centre, spread = rng.uniform(700, 950), rng.uniform(50, 100)
+    step = spread / 6.0
     # the unit of the feature is arbitrary (a diffusivity in mm2/s is ~1e-3, a volume in mm3 ~1e3): the estimators are equivariant
     unit = rng.choice([1.0, 1.0, 1.0, 1e-2, 1e-3, 1e-4, 1e3])
 
@@ -944,7 +1299,7 @@ def gen_lme_fit(rng, idx, indep):
         b0 = sd0 * z0
         b1 = sd1 * (rho * z0 + math.sqrt(1 - rho * rho) * z1) if slope else 0.0
         t0 = rng.gauss(centre, spread)
-        ages = sorted({round((t0 + k * rng.uniform(0.5, 2.0)) * 64) / 64.0 for k in range(n)})
+        ages = sorted({round((t0 + k * step * rng.uniform(0.5, 2.0)) * 64) / 64.0 for k in range(n)})
         out = []
         for a in ages:
             y = beta0 + b0 + (beta1 + b1) * (a - centre) / spread + rng.gauss(0, noise)
@@ -954,6 +1309,13 @@ def gen_lme_fit(rng, idx, indep):
     train = []
     for i in range(n_sub):
         train += subject(f"t{idx}_{i:02d}", rng.choice([1, 2, 3, 4, 5, 6, 7])) if i else subject(f"t{idx}_00", 5)
+    if wide:
+        # missing values inside the training cohort (kept as unobserved visits when the table is read with drop_full_nan=False)
+        seen = set()
+        for r in train:
+            if r[0] in seen and rng.random() < 0.12:
+                r[2] = None
+            seen.add(r[0])
     new = []
     for i in range(rng.randrange(2, 5)):
         rows = subject(f"n{idx}_{i}", rng.choice([1, 2, 4, 6]))
@@ -963,9 +1325,16 @@ def gen_lme_fit(rng, idx, indep):
         new += rows
     rng.shuffle(train)
     drop = rng.random() < 0.5
-    return {"kind": "lme-fit", "slope": slope, "unit": unit, "train": train, "new": new, "drop_full_nan": drop,
+    case = {"kind": "lme-fit", "slope": slope, "unit": unit, "train": train, "new": new, "drop_full_nan": drop,
             "force_independent_random_effects": slope and rng.random() < 0.25, "indep": indep,
             "query_ages": [rng.randrange(400, 720) / 8.0 for _ in range(3)]}
+    if wide:
+        q = [round((centre + rng.uniform(-2, 5) * spread) * 8) / 8.0 for _ in range(3)]
+        if rng.random() < 0.3:
+            q = [float(round(t)) for t in q]
+        case.update(axis=axis, query_ages=q, train_drop_full_nan=rng.random() < 0.5, fit_kwargs=rng.choice(FIT_KWARGS),
+                    fit_entry=rng.choice(["kwargs", "settings-object", "dataframe"]), routes=True)
+    return case
 
 
 RUNNERS = {"lme-generic1": run_lme_generic1, "const-api": run_const_api, "const-algo": run_const_algo, "lme-synth": run_lme_synth, "lme-fit": run_lme_fit}
@@ -1013,7 +1382,12 @@ def run(chk: core.Check):
                 "_get_individual_last_values (unsorted, tied ages, empty), all four prediction types, compared exactly with "
                 "the Lean model; LME: loaded parameters and real lme_fit fits (with/without random slope), every training "
                 "and unseen individual compared with the Lean formula fed the stored variance components, with a numpy "
-                "solve, and with statsmodels' random_effects. Non-trivial: >=2 visits seen and (input not age-sorted or a "
+                "solve, and with statsmodels' random_effects. Each family once more, widened: time axes in years since baseline "
+                "(negative times, 0) and months, values scaled by 2^-20..2^20, 12 features, up to 40 visits, cohorts of unequal visit "
+                "counts; data as Data / Dataset / DataFrame, settings as keyword / AlgorithmSettings / default, requests as list / "
+                "tuple / numpy / integers / scalar / empty / data frame / MultiIndex, individual parameters and models saved and "
+                "loaded back, LME model given as a settings dictionary, missing values inside the training cohort (kept with "
+                "drop_full_nan=False), pass-through options of the fit (reml, method). Non-trivial: >=2 visits seen and (input not age-sorted or a "
                 "missing value) for the constant model; >=2 observed visits for LME; distinct by full history + settings.")
     thorough = chk.tier == "thorough"
     cases = list(core.load_corpus(PROP))
@@ -1023,7 +1397,20 @@ def run(chk: core.Check):
     cases += [gen_lme_synth(rng, i) for i in range(n_synth)]
     cases += [gen_lme_generic1(rng, i) for i in range(n_gen)]
     cases += [gen_lme_fit(rng, i, indep=(thorough or i % 2 == 0)) for i in range(n_fit)]
+    # the same families once more, widened: other time axes and units, > 10 features, dozens of visits, every accepted form of
+    # the data / settings / request, individual parameters and models that went through a save + load, missing values inside the
+    # training cohort, pass-through options of the fit
+    w_api, w_algo, w_synth, w_fit = (1200, 2500, 1000, 160) if thorough else (70, 250, 80, 10)
+    cases += [gen_const_api(rng, 10000 + i, wide=True) for i in range(w_api)]
+    cases += [gen_const_algo(rng, 10000 + i, wide=True) for i in range(w_algo)]
+    cases += [gen_lme_synth(rng, 10000 + i, wide=True) for i in range(w_synth)]
+    cases += [gen_lme_fit(rng, 10000 + i, indep=(thorough or i % 2 == 0), wide=True) for i in range(w_fit)]
     process(chk, env, cases)
+    # the witnesses of the listed findings are corpus cases 06 (F90), 07 (F91, F92) and 08 (F94): say so when they no longer reproduce
+    hit = {f["finding"] for f in chk.impl_failures if f["finding"]}
+    for fid in ("F90", "F91", "F92", "F94"):
+        if fid not in hit:
+            chk.note(f"finding {fid}: witness does not reproduce (repaired)")
     chk.exhaustive = False
 
 
